@@ -47,7 +47,13 @@ class GotranPythonCodePrinter(PythonCodePrinter):
             return super()._print_MatrixElement(expr)
 
     def _print_Float(self, flt):
-        return self._print(str(float(flt)))
+        value = float(flt)
+        if value != value:
+            return "numpy.nan"
+        if value in (float("inf"), float("-inf")):
+            # str(value) would be the undefined name inf
+            return "numpy.inf" if value > 0 else "(-numpy.inf)"
+        return self._print(str(value))
 
     def _print_Piecewise(self, expr):
         result = []
